@@ -802,7 +802,63 @@ func (se *specEnv) evalCall(n *ast.CallExpr) Val {
 					names[k] = v
 				}
 			}
-			return se.child(names).evalTopAny(pd.body)
+			revealed := !pd.opaque
+			if rc := se.f.rootCtr(); rc != nil && pd.opaque {
+				for _, r := range rc.Reveal {
+					if r == id.Name {
+						revealed = true
+					}
+				}
+			}
+			if revealed {
+				return se.child(names).evalTopAny(pd.body)
+			}
+			// opaque: an uninterpreted predicate of the argument values and of the
+			// current value of every heap its body reads
+			saveLog := e.readLog
+			e.readLog = map[string]bool{}
+			nd := len(e.decls)
+			func() {
+				defer func() { recover() }()
+				se.child(names).evalTopAny(pd.body)
+			}()
+			reads := sortedKeys(e.readLog)
+			e.readLog = saveLog
+			if saveLog != nil {
+				for _, r := range reads {
+					saveLog[r] = true
+				}
+			}
+			// drop the assumptions made while scanning the body (they may mention bound variables' junk)
+			keep := e.decls[:nd]
+			for _, d := range e.decls[nd:] {
+				if !strings.HasPrefix(d, "(assert ") {
+					keep = append(keep, d)
+				}
+			}
+			e.decls = keep
+			var argTerms, argSorts []string
+			for _, p := range pd.params {
+				argTerms = append(argTerms, names[p].term)
+				argSorts = append(argSorts, e.sc.sortOf(names[p].typ))
+			}
+			for _, r := range reads {
+				argTerms = append(argTerms, e.heapByName(se.st, r))
+				argSorts = append(argSorts, e.hsort[r])
+			}
+			sym := "opq_" + id.Name
+			sig := "(" + strings.Join(argSorts, " ") + ") Bool"
+			if e.opaqueSig == nil {
+				e.opaqueSig = map[string]string{}
+			}
+			if old, ok := e.opaqueSig[sym]; !ok {
+				e.opaqueSig[sym] = sig
+				e.decls = append(e.decls, fmt.Sprintf("(declare-fun %s %s)", sym, sig))
+				e.declared[sym] = true
+			} else if old != sig {
+				panic("opaque predicate " + id.Name + " used at two different signatures")
+			}
+			return boolVal("(" + sym + " " + strings.Join(argTerms, " ") + ")")
 		}
 		panic("spec: unknown function " + id.Name)
 	}
